@@ -24,6 +24,12 @@ def run(ctx):
     ctx.add_tlc(res, "ConstSignal_Gen simulate", "R-generate")
     if not res.emitted:
         raise RuntimeError("ConstSignal_Gen produced nothing")
+    # exhaustively: smeared drifts of 2.5 and 4 channels per step (either sign) through the middle / top / bottom of the band
+    res2 = tlc.run(MODULE, tlc.cfg_with("ConstSignal_Gen.cfg", {"Focus": '"fast"'}, ctx.outdir), ctx.outdir, workers=1)
+    ctx.add_tlc(res2, "ConstSignal_Gen Focus=fast (exhaustive)", "R-generate")
+    if not res2.emitted:
+        raise RuntimeError("ConstSignal_Gen Focus=fast produced nothing")
+    res.emitted.extend(res2.emitted)
     gl = ["dyadic", "bl_hires", "coarse", "odd"]
     seen = set()
     for n, out in enumerate(res.emitted):
